@@ -84,7 +84,7 @@ def gen_gfa1(rng):
         rl = CV.ref_len(ov)
         pos = rng.choice([0, lens[f] - rl, rng.randint(0, lens[f] - rl)])
         fo = rng.choice(["+", "+", "-"])
-        tags = ["ID:Z:ct%d" % pos] if rng.random() < 0.3 else []
+        tags = ["ID:Z:ct%d" % len(lines)] if rng.random() < 0.3 else []
         lines.append("\t".join(["C", f, fo, t, rng.choice("+-"), str(pos), ov] + tags))
     # paths over links in either direction
     if links and rng.random() < 0.6:
